@@ -239,6 +239,8 @@ class DatasetOnDisk(GetSetDelAttrMixin, NetCDFOnDisk, AbstractDataset):
 
         # first load dimensions
         for dim in dims:
+            if not isinstance(dict_indices[dim], slice) and np.ndim(dict_indices[dim]) == 0:
+                continue # a dimension removed by a scalar index, as Dataset.take does
             data.axes.append(self.axes[dim][dict_indices[dim]])
 
         # then normal variables
